@@ -155,6 +155,19 @@ static CaseResult run_case(Tape &t)
 	std::string sig, e = check_one(c, data, cap, &sig);
 	if (e.empty() && len > 0) e = check_chunking(c, data, &t, 0, &sig);
 	if (e.empty()) e = check_decoder_capacity(c, data, t.below((uint32_t)len + 3), &sig);
+	// the decoder on text that is NOT encoder output (what the peer may send): arbitrary bytes incl. >= 0x80 and NUL.
+	// Judged: it stays inside its output capacity (+1 for the terminator) and inside its tables (ASan/UBSan), and the
+	// result is a deterministic function of the text (decoded twice).
+	if (e.empty() && t.chance(1, 4)) {
+		Bytes txt = t.bytes_of(t.below(300));
+		size_t dc = t.chance(1, 2) ? 512 : t.below(64);
+		Guarded d1(dc + 1), d2(dc + 1); size_t c1 = dc, c2 = dc;
+		int m1 = v_decode(c, d1.p(), &c1, (const char *)txt.data(), txt.size());
+		int m2 = v_decode(c, d2.p(), &c2, (const char *)txt.data(), txt.size());
+		if (!d1.guard_ok() || !d2.guard_ok()) { sig = "C07:dec-overrun"; e = "decoder wrote past capacity+1 on arbitrary text"; }
+		else if (m1 < 0 || (size_t)m1 > dc || m1 != m2 || xcmp(d1.p(), d2.p(), (size_t)std::max(m1, 0)) != 0) { sig = "C07:dec-arbitrary"; e = "decoder result on arbitrary text exceeds its capacity or is not deterministic"; }
+		r.cls("decoder-on-arbitrary-text");
+	}
 	if (!e.empty()) r.fail(sig, e + " [" + r.render + "]");
 	bool hi = false; for (auto b : data) if (b >= 0x80) hi = true;
 	r.nontrivial = len >= 1 && (cap < need || len % v_blk_raw(c) != 0 || hi);
